@@ -11,6 +11,7 @@ from engine.core import Report, Ob, HOLDS, CEX, REJECTED, INCONCLUSIVE, load_kno
 from engine import env as E0
 from engine.symsql import e1, symdb, sqlsem, pysem
 from engine.symsql.e1 import Program
+from pony.orm import exists, count          # module-level names used inside hybrid methods of the schema below
 
 _cache = {}
 
@@ -23,6 +24,9 @@ def define_entities(db):
         n = Optional(int)
         ps = Set('P')
         tags = Set('T')
+        @property
+        def size(self): return len(self.ps)
+        def has_big(self, x): return exists(p for p in self.ps if p.a > x)
     class T(db.Entity):
         id = PrimaryKey(int)
         w = Required(int)
@@ -36,6 +40,16 @@ def define_entities(db):
         s = Required(str)
         u = Optional(str, nullable=True)
         g = Optional(G)
+        # hybrid properties and methods: pony inlines their bodies into the query
+        @property
+        def a2(self): return self.a * 2
+        @property
+        def label(self): return self.s + 'a'
+        @property
+        def has_b(self): return self.b is not None
+        def bigger(self, x): return self.a > x
+        def between_ab(self, x): return self.a <= x and (self.b is None or x < self.b)
+        def gname(self): return self.g.name
 
 
 def get_db(pname='sqlite'):
@@ -78,6 +92,8 @@ def atoms():
             'max(p.a, p.b) == x', 'min(p.a, 0) < x', 'coalesce(p.b, 0) == x', "coalesce(p.u, 'a') == y", 'coalesce(p.b, p.a) > 0',
             'p.g.name == y', 'p.g.n > p.a', 'p.g == None', 'p.g.n is not None',
             'len(p.g.ps) > x', 'count(p.g.ps) == 1',
+            'p.a2 > x', 'p.a2 == p.b', 'p.label == y', 'p.label.startswith(y)', 'p.has_b', 'not p.has_b', 'p.bigger(x)', 'not p.bigger(x)', 'p.bigger(p.b)', 'p.between_ab(x)',
+            'not p.between_ab(x)', 'p.gname() == y', 'p.bigger(x) or p.has_b', 'p.g.size > x', 'p.a2 // 3 == x',
             ]
     return out
 
@@ -89,7 +105,7 @@ def g_atoms():
             'g in (p.g for p in P if p.a > x)', 'g.n == max(p.a for p in P)', 'g.n < sum(p.a for p in P if p.g == g)',
             "g.name in (p.s for p in g.ps)", "exists(p for p in g.ps if p.s.startswith(g.name))", 'g.ps.select(lambda p: p.a > x)',
             'g.ps.count() > x', 'g.ps.is_empty()', 'count(p for p in g.ps if p.f) == x', 'not exists(p for p in g.ps if not p.b)',
-            'g.n is None and not g.ps', 'len(g.ps) == len(g.name)',
+            'g.n is None and not g.ps', 'len(g.ps) == len(g.name)', 'g.size > x', 'g.size == len(g.tags)', 'g.has_big(x)', 'not g.has_big(x)', 'g.has_big(g.n)',
             # many-to-many
             'g.tags', 'not g.tags', 'len(g.tags) > x', 'count(g.tags) == x', 'x in g.tags.w', 'x not in g.tags.w', 'sum(g.tags.w) > x', 'max(g.tags.w) == x',
             'exists(t for t in g.tags if t.w > x)', 'not exists(t for t in g.tags if t.w == g.n)', 'g.tags.count() == len(g.ps)', 'g.tags.is_empty()',
